@@ -26,7 +26,18 @@ func init() {
 
 func init() {
 	propertyPlans["C02"] = &PropertyPlan{ID: "C02",
+		Extra: func(cc *checkCtx) *extraResult {
+			return cc.runOverlayTests([]overlayTest{{Name: "lineIntersects-lattice", Level: "bounded", Src: "lineintersects_lattice_test.go", PkgRel: "pointindex", Run: "^TestGvcLineIntersectsLattice$",
+				Bound: "sanity cross-check of the specification, not counted as proved: all 83521 segments with endpoints on the quarter-pixel lattice of a 4x4 pixel window against exact rational clipping"}})
+		},
 		NotDecided: []string{"order of travel of the returned centres", "the level-by-level descent of snapClosestPoints (which parents are visited, which list a level's result is)", "second sentence (non-collapsing polygon = concatenation of routed edges)"},
 	}
-	propertyPlans["C14"] = &PropertyPlan{ID: "C14"}
+	propertyPlans["C14"] = &PropertyPlan{ID: "C14",
+		NotDecided: []string{"that a tile matrix set accepted by validation has root 1x1 and a power-of-two tile width (IsQuadTree does not check it); for the 14 built-in sets this is checked on the data (extra, exhaustive-data)"},
+		Assumptions: []string{"float64 as real numbers; strconv.Atoi as an uninterpreted function of the id string; the JSON decoder guarantees a point of origin and a positive cell size for every tile matrix"},
+		Extra: func(cc *checkCtx) *extraResult {
+			return cc.runOverlayTests([]overlayTest{{Name: "embedded-tile-matrix-sets", Level: "exhaustive-data", Src: "c14_embedded_test.go", PkgRel: "", Run: "^TestGvcC14Embedded$",
+				Bound: "all 14 embedded documents x every tile matrix id: validateTileMatrixSet run on the real code; accepted sets re-checked independently incl. root 1x1, power-of-two tiles and pixel size = cell size / 16"}})
+		},
+	}
 }
